@@ -35,8 +35,6 @@ MANIFEST = {
 PROPS = "Props/C14.v"
 KEY_FIELDS = ["time", "qpos", "qvel", "act", "ctrl", "mocap_pos", "mocap_quat"]
 OTHER_STATE = ["qacc_warmstart", "qfrc_applied", "xfrc_applied", "eq_active", "userdata", "history", "act_dot", "qacc"]
-# differences of these fields after a keyframe reset are consequences of C13's findings
-INHERITED = {"history", "act_dot", "ntree_awake", "nbody_awake", "nv_awake", "body_awake_ind", "dof_awake_ind", "body_awake"}
 
 EXPECTED_LAUNCHES = [("valid_key_mask", ["reset_mask"]), ("reset_keyframe_data", KEY_FIELDS[:4] + ["ctrl", "mocap_pos", "mocap_quat"])]
 EXPECTED_STORES = {
